@@ -108,6 +108,26 @@ func genConcCase(r *sim.Rng, tier string, idx int) *ConcCase {
 		c.Reps = 1
 	}
 	n := r.Range(2, 8)
+	if c.Mode == "free" && idx < 64 {
+		// the first cases of each race child are cold starts of the package:
+		// several xz writers and readers with the default and other checks at once
+		n = r.Range(4, 8)
+		for i := 0; i < n; i++ {
+			if r.Chance(1, 3) {
+				c.Tasks = append(c.Tasks, ConcTask{R: &RCase{Stream: StreamRecipe{Kind: "refenc-xz", Seed: r.Uint64()}, Src: genSrcPlan(r), Reads: []int{64}, RDict: 4096}})
+				continue
+			}
+			w := genXZWCase(r, "quick", 0, false)
+			w.XZ.BlockSize = sim.Pick(r, []int64{0, 0, 100, 512})
+			if i%2 == 0 {
+				w.XZ.CheckSum, w.XZ.NoCheckSum = 0, false // default CRC64
+			}
+			w.Payload = sim.GenPayload(r, 1500)
+			w.Ops = []Op{{K: "w", N: w.Payload.Len()}, {K: "c"}}
+			c.Tasks = append(c.Tasks, ConcTask{W: w})
+		}
+		return c
+	}
 	for i := 0; i < n; i++ {
 		if i > 0 && r.Chance(1, 4) {
 			// a deliberately identical task: must produce identical bytes
@@ -235,6 +255,15 @@ func runLockstep(tasks []ConcTask, seed uint64) (digests []string, details []str
 func runConcCase(c *ConcCase, x *sim.Ctx) *sim.Violation {
 	n := len(c.Tasks)
 	x.Shape(fmt.Sprintf("%s:n%d", c.Mode, n))
+	// In the unsynchronised mode the concurrent phase runs first: whatever the
+	// package initialises lazily on first use is then first used concurrently
+	// (a warm-up by sequential reference runs would hide a cold-start race).
+	var early []string
+	var earlyDet []string
+	if c.Mode == "free" {
+		early, earlyDet = runFree(c.Tasks, c.Procs)
+		x.Eval(1)
+	}
 	// reference: each task alone, twice
 	solo := make([]string, n)
 	soloDetail := make([]string, n)
@@ -276,37 +305,12 @@ func runConcCase(c *ConcCase, x *sim.Ctx) *sim.Violation {
 		if reps < 1 {
 			reps = 1
 		}
-		if c.Procs > 0 {
-			defer runtime.GOMAXPROCS(runtime.GOMAXPROCS(c.Procs))
-		}
 		for rep := 0; rep < reps; rep++ {
-			d := make([]string, n)
-			det := make([]string, n)
-			var wg sync.WaitGroup
-			start := make(chan struct{})
-			var infra any
-			var mu sync.Mutex
-			for i := 0; i < n; i++ {
-				wg.Add(1)
-				go func(i int) {
-					defer wg.Done()
-					defer func() {
-						if r := recover(); r != nil {
-							mu.Lock()
-							infra = r
-							mu.Unlock()
-						}
-					}()
-					<-start
-					d[i], det[i] = runTask(&c.Tasks[i], nil)
-				}(i)
+			d, det := early, earlyDet
+			if rep > 0 {
+				d, det = runFree(c.Tasks, c.Procs)
+				x.Eval(1)
 			}
-			close(start)
-			wg.Wait()
-			if infra != nil {
-				panic(infra)
-			}
-			x.Eval(1)
 			for i := range d {
 				if d[i] != solo[i] {
 					return sim.Viol("interference", taskKind(&c.Tasks[i])+":free", "task %d running concurrently (GOMAXPROCS %d) differs from its solo run: %s vs solo %s", i, c.Procs, det[i], soloDetail[i])
@@ -317,6 +321,42 @@ func runConcCase(c *ConcCase, x *sim.Ctx) *sim.Violation {
 		sim.Infra("unknown mode %q", c.Mode)
 	}
 	return nil
+}
+
+// runFree starts all tasks together with no harness synchronisation between
+// them and joins them once.
+func runFree(tasks []ConcTask, procs int) (d, det []string) {
+	n := len(tasks)
+	if procs > 0 {
+		defer runtime.GOMAXPROCS(runtime.GOMAXPROCS(procs))
+	}
+	d = make([]string, n)
+	det = make([]string, n)
+	var wg sync.WaitGroup
+	start := make(chan struct{})
+	var infra any
+	var mu sync.Mutex
+	for i := 0; i < n; i++ {
+		wg.Add(1)
+		go func(i int) {
+			defer wg.Done()
+			defer func() {
+				if r := recover(); r != nil {
+					mu.Lock()
+					infra = r
+					mu.Unlock()
+				}
+			}()
+			<-start
+			d[i], det[i] = runTask(&tasks[i], nil)
+		}(i)
+	}
+	close(start)
+	wg.Wait()
+	if infra != nil {
+		panic(infra)
+	}
+	return d, det
 }
 
 func switches(s []int) int {
@@ -336,8 +376,11 @@ func taskKind(t *ConcTask) string {
 	return "reader-" + strings.TrimPrefix(t.R.Stream.Kind, "refenc-")
 }
 
-// raceHalf runs the unsynchronised half under the race detector in a child
-// process built with -race (bin/verif-race, built by the check script).
+// raceHalf runs the unsynchronised half under the race detector in child
+// processes built with -race (bin/verif-race, built by the check script). Each
+// child is a fresh process (a cold start of the package) that runs its share of
+// the cases one at a time, so that a race report can be attributed to the case
+// that was running.
 func raceHalf(tier string, seed uint64, cov map[string]any) (int, []string) {
 	bin := filepath.Join(sim.VerifDir(), "bin", "verif-race")
 	if _, err := os.Stat(bin); err != nil {
@@ -346,67 +389,110 @@ func raceHalf(tier string, seed uint64, cov map[string]any) (int, []string) {
 	}
 	dir := filepath.Join(sim.VerifDir(), "replays")
 	os.MkdirAll(dir, 0o755)
-	progress := filepath.Join(dir, fmt.Sprintf("C14-race-progress-%d.jsonl", os.Getpid()))
-	report := filepath.Join(dir, fmt.Sprintf("C14-race-report-%d", os.Getpid()))
-	defer os.Remove(progress)
-	cmd := exec.Command(bin, "check", "C14", "--tier", tier, "--seed", fmt.Sprint(seed))
-	cmd.Env = append(os.Environ(), "VERIF_C14_MODE=race", "VERIF_C14_PROGRESS="+progress,
-		"GORACE=halt_on_error=1 exitcode=66 log_path="+report, "VERIF_EVIDENCE_SUFFIX=.race")
-	out, err := cmd.CombinedOutput()
-	code := 0
-	if ee, ok := err.(*exec.ExitError); ok {
-		code = ee.ExitCode()
-	} else if err != nil {
-		return 2, []string{"INFRA: race half: " + err.Error()}
+	const procs = 8
+	type child struct {
+		code     int
+		out      string
+		progress string
+		report   string
+		shardOut string
+		err      error
 	}
-	tail := lastLines(string(out), 3)
-	// merge the child's evidence
-	evp := filepath.Join(sim.VerifDir(), "evidence", "C14.json.race")
-	if b, err := os.ReadFile(evp); err == nil {
-		var ev map[string]any
-		if json.Unmarshal(b, &ev) == nil {
-			cov["race_detector_half"] = map[string]any{
-				"what":     "the same task sets started together with no harness synchronisation, binary built with -race, GOMAXPROCS 1/4/16; this half observes a schedule the harness does not control (monitoring), it is included because the property names the race detector and lock-step parking would blind it",
-				"coverage": ev["coverage"],
-				"wall_s":   ev["wall_s"],
+	kids := make([]child, procs)
+	var wg sync.WaitGroup
+	for i := 0; i < procs; i++ {
+		wg.Add(1)
+		go func(i int) {
+			defer wg.Done()
+			k := &kids[i]
+			k.progress = filepath.Join(dir, fmt.Sprintf("C14-race-progress-%d-%d.jsonl", os.Getpid(), i))
+			k.report = filepath.Join(dir, fmt.Sprintf("C14-race-report-%d-%d", os.Getpid(), i))
+			k.shardOut = filepath.Join(dir, fmt.Sprintf("C14-race-shard-%d-%d.json", os.Getpid(), i))
+			cmd := exec.Command(bin, "check", "C14", "--tier", tier, "--seed", fmt.Sprint(seed))
+			cmd.Env = append(os.Environ(), "VERIF_C14_MODE=race", "VERIF_C14_PROGRESS="+k.progress,
+				"GORACE=halt_on_error=1 exitcode=66 log_path="+k.report,
+				fmt.Sprintf("VERIF_SHARD=%d/%d", i, procs), "VERIF_SHARD_OUT="+k.shardOut)
+			out, err := cmd.CombinedOutput()
+			k.out = string(out)
+			if ee, ok := err.(*exec.ExitError); ok {
+				k.code = ee.ExitCode()
+			} else if err != nil {
+				k.err = err
+			}
+		}(i)
+	}
+	wg.Wait()
+	defer func() {
+		for _, k := range kids {
+			os.Remove(k.progress)
+			os.Remove(k.shardOut)
+		}
+	}()
+	var completed, evals int64
+	for i := range kids {
+		k := &kids[i]
+		if k.err != nil {
+			return 2, []string{"INFRA: race half: " + k.err.Error()}
+		}
+		if b, err := os.ReadFile(k.shardOut); err == nil {
+			var r struct {
+				Completed int64  `json:"completed"`
+				Evals     int64  `json:"evals"`
+				Infra     string `json:"infra"`
+				Founds    []struct {
+					V    *sim.Violation  `json:"v"`
+					Case json.RawMessage `json:"case"`
+				} `json:"founds"`
+			}
+			if json.Unmarshal(b, &r) == nil {
+				completed += r.Completed
+				evals += r.Evals
+				if r.Infra != "" {
+					return 2, []string{"INFRA: race half: " + r.Infra}
+				}
+				for _, f := range r.Founds {
+					rf := sim.ReplayFile{Property: "C14", Engine: "conc", Seed: seed, Tree: "see git", Scenario: f.Case, Violation: f.V}
+					b, _ := json.MarshalIndent(rf, "", " ")
+					path := filepath.Join(dir, fmt.Sprintf("C14-free-%s-seed%d.json", f.V.Class, seed))
+					os.WriteFile(path, b, 0o644)
+					return 1, []string{fmt.Sprintf("VIOLATION property=C14 replay=%s", path), fmt.Sprintf("  class=%s site=%s detail=%s", f.V.Class, f.V.Site, f.V.Detail)}
+				}
 			}
 		}
-		os.Remove(evp)
-	}
-	switch code {
-	case 0:
-		return 0, []string{"race-detector half: " + strings.Join(tail, " | ")}
-	case 66:
-		// the last case the child started is the one that raced
-		var last json.RawMessage
-		if b, err := os.ReadFile(progress); err == nil {
-			lines := bytes.Split(bytes.TrimSpace(b), []byte("\n"))
-			last = lines[len(lines)-1]
-		}
-		rep, _ := filepath.Glob(report + "*")
-		detail := "data race reported by the race detector"
-		if len(rep) > 0 {
-			if b, err := os.ReadFile(rep[0]); err == nil {
-				detail = firstLinesStr(string(b), 40)
+		switch k.code {
+		case 0:
+		case 66:
+			var last json.RawMessage
+			if b, err := os.ReadFile(k.progress); err == nil {
+				lines := bytes.Split(bytes.TrimSpace(b), []byte("\n"))
+				last = lines[len(lines)-1]
 			}
-		}
-		rf := sim.ReplayFile{Property: "C14", Engine: "conc", Seed: seed, Tree: "see git", Scenario: last,
-			Violation: &sim.Violation{Class: "data-race", Site: "race-detector", Detail: detail}}
-		b, _ := json.MarshalIndent(rf, "", " ")
-		path := filepath.Join(dir, fmt.Sprintf("C14-data-race-seed%d.json", seed))
-		os.WriteFile(path, b, 0o644)
-		return 1, []string{fmt.Sprintf("VIOLATION property=C14 replay=%s", path), "  class=data-race " + firstLinesStr(detail, 12)}
-	case 1:
-		// interference found in the free-running half: the child printed the VIOLATION line
-		var lines []string
-		for _, l := range strings.Split(string(out), "\n") {
-			if strings.HasPrefix(l, "VIOLATION") || strings.HasPrefix(l, "  class=") {
-				lines = append(lines, l)
+			rep, _ := filepath.Glob(k.report + "*")
+			detail := "data race reported by the race detector"
+			if len(rep) > 0 {
+				if b, err := os.ReadFile(rep[0]); err == nil {
+					detail = firstLinesStr(string(b), 40)
+				}
 			}
+			rf := sim.ReplayFile{Property: "C14", Engine: "conc", Seed: seed, Tree: "see git", Scenario: last,
+				Violation: &sim.Violation{Class: "data-race", Site: "race-detector", Detail: detail}}
+			b, _ := json.MarshalIndent(rf, "", " ")
+			path := filepath.Join(dir, fmt.Sprintf("C14-data-race-seed%d.json", seed))
+			os.WriteFile(path, b, 0o644)
+			return 1, []string{fmt.Sprintf("VIOLATION property=C14 replay=%s", path), "  class=data-race " + firstLinesStr(detail, 12)}
+		default:
+			return 2, append([]string{fmt.Sprintf("INFRA: race half child %d exited %d", i, k.code)}, lastLines(k.out, 3)...)
 		}
-		return 1, lines
 	}
-	return 2, append([]string{fmt.Sprintf("INFRA: race half exited %d", code)}, tail...)
+	cov["race_detector_half"] = map[string]any{
+		"what":             "the same kind of task sets started together with no harness synchronisation, binary built with -race, GOMAXPROCS 1/4/16, in 8 fresh processes (each a cold start of the package: the concurrent phase runs before any sequential reference run); this half observes schedules the harness does not control (monitoring), it is included because the property names the race detector and lock-step parking would blind it",
+		"cases_completed":  completed,
+		"evaluations":      evals,
+		"child_processes":  procs,
+		"race_reports":     0,
+		"replay_of_a_race": "re-runs the task set under -race (first in a fresh process)",
+	}
+	return 0, []string{fmt.Sprintf("race-detector half: %d task sets in %d fresh processes, no race report, every task equals its solo run", completed, procs)}
 }
 
 func lastLines(s string, n int) []string {
